@@ -351,4 +351,23 @@ func checkC19(t *testing.T, job *Job, res *Result) {
 	res.Rule = "23 endings (served with 5 body shapes, 103 early hints before the final status, 404, TLS refused, redirect, stopped built-in/custom page, no healthy target, 413, 500 over limit, 502 close/garbage, 504 target timeout, cut mid-body, client abort (499), paused then released, paused-out 504, drained 504, upgrade closed by the target) x method {GET, POST, HEAD} x query {none, a=1;b} x client request id given or not x 5 log-header configurations; slog default handler replaced by a capturing handler before Server.buildHandler; oracle: exactly one Request record per request with status, byte count, method, host, path, query, request id, service, target and configured headers equal to what the client and the target observed"
 	res.Bounds = "see rule"
 	runE(t, job, res, &ESpec{Prop: "C19", Setup: c19Setup, Cases: c19Cases(tier), Batch: 120, Log: true})
+	// the same requests against a proxy restored from the state file those deployments wrote
+	var restored []ECase
+	for _, c := range c19Cases(tier) {
+		c.Name = "restored " + c.Name
+		c.Class = "restored " + c.Class
+		restored = append(restored, c)
+	}
+	runE(t, job, res, &ESpec{Prop: "C19", Setup: func(w *World) error {
+		if err := c19Setup(w); err != nil {
+			return err
+		}
+		if err := w.Restart(); err != nil {
+			return err
+		}
+		// restored targets are presumed healthy until their first probe: let it happen
+		time.Sleep(vI + vI/2)
+		return nil
+	}, Cases: restored, Batch: 120, Log: true})
+	res.Rule += "; the whole matrix a second time on a proxy restored from the state file"
 }
